@@ -1273,6 +1273,14 @@ def c05_plants(tmpl, g, r, kinds=None):
                                    [hd, '    zg :: fn -> int do', '        zh :: fn -> int do self.n + 1 end', '        zh()', '    end',
                                     '    zg()', 'end }'],
                                    [hd, '    self.n = 2', '    1', 'end }']]
+    # the name of a blob / an enum is a type, it has no value (9c09349)
+    tnames = ["Zb", "Ze", "Zg", "Zx", "Zbx"] + sorted(g.blobs)[:2] + sorted(g.enums)[:2]
+    ex["type-name-as-value"] = list(dict.fromkeys(tnames))
+    st["type-name-as-value"] = [["zt1 := Zb"], ["zt1 :: Ze"], ["Zb.a = 3"], ["zt5 :: Zb.a + 1"], ["zimp(Zb)"], ["print(Ze)"],
+                                ["zt2 :: [Zb]"], ["zt3 :: (Ze, 1)"], ["zt4 :: Zb == Zb"], ["zt6 :: fn -> do", "    Zb", "end"],
+                                ["zt7: Zb : Zb"], ["case Ze do", "    P x -> end", "    else end", "end"]]
+    st["ok:type-name-as-type"] = [['zt1 :: Zb { a: 1, b: "x" }', 'zt2 :: Ze.P 1', 'zt3: Zb : zt1', 'zt4: Ze : Ze.Q',
+                                   'zt5 :: fn q: Zb -> Ze do', '    Ze.Q', 'end', 'zt6 :: zt1.a + 1']]
     ex["tuple-index-range"] = ["ZT[2]", "(1, 2, 3)[7]"]
     st["tuple-length"] = [["zs2: (int, int) = (1, 2, 3)"], ["zs3 := (1, 2)", "zs3 = (1, 2, 3)"]]
     ex["tuple-length"] = ["((1, 2) == (1, 2, 3))", "((1, 2, 3) < (1, 2))", "((1, 2) > (1, 2, 3))", "((1, 2, 3) <= (1, 2))",
@@ -1300,7 +1308,8 @@ def c05_plants(tmpl, g, r, kinds=None):
                 d = info_dict(info)
                 if d["where"] == "global":
                     continue
-                if d.get("pure") == "1" and any(":=" in l or "zcf" in l or "zcg" in l or "self." in l or "zglt(" in l or "zggt(" in l for l in s):
+                if d.get("pure") == "1" and any(":=" in l or "zcf" in l or "zcg" in l or "self." in l or "zglt(" in l or "zggt(" in l or "zimp(" in l or "print(" in l
+                                             for l in s):
                     continue        # mutable definitions / calls of impure local functions are rejected in pure functions anyway
                 out.append((k, "S", i, info, s))
         if k in ("break-outside", "continue-outside"):
